@@ -165,7 +165,11 @@ func c10One(o *out, p c10pred, bounds []*big.Int, tag string) {
 	resp := "(1)"
 	if cerr == nil {
 		var b sb
-		b.open(); b.atom(0); b.sp(); b.optExpr(resid); b.sp()
+		b.open()
+		b.atom(0)
+		b.sp()
+		b.optExpr(resid)
+		b.sp()
 		for _, t := range []time.Time{tr.Min, tr.Max} {
 			if t.IsZero() {
 				b.WriteString("(0) ")
@@ -173,7 +177,10 @@ func c10One(o *out, p c10pred, bounds []*big.Int, tag string) {
 				b.WriteString("(1 " + timeNanosString(t) + ") ")
 			}
 		}
-		b.atom(tr.MinTimeNano()); b.sp(); b.atom(tr.MaxTimeNano()); b.close()
+		b.atom(tr.MinTimeNano())
+		b.sp()
+		b.atom(tr.MaxTimeNano())
+		b.close()
 		resp = b.String()
 	}
 	req, uses := withSemOracles("(18 (1 "+bigNanos(c10Now).String()+") "+exprSexp(cond)+")", cond)
@@ -236,55 +243,63 @@ func c10Zones(o *out) {
 			for _, op := range []string{">=", ">", "<", "<=", "="} {
 				o.count("zones")
 				o.checked()
-				v := &influxql.NowValuer{Now: c10Now, Location: loc}
-				a, erra := influxql.ParseExpr("time " + op + " '" + day + "'")
-				b, errb := influxql.ParseExpr("time " + op + " '" + day + " 00:00:00'")
-				c, errc := influxql.ParseExpr("time " + op + " '" + day + "T00:00:00Z'")
-				if erra != nil || errb != nil || errc != nil {
-					continue
+				// the zone may sit anywhere in a composed valuer: behind a member that knows no zone, or nested
+				shapes := []influxql.Valuer{
+					&influxql.NowValuer{Now: c10Now, Location: loc},
+					influxql.MultiValuer(&influxql.NowValuer{Now: c10Now}, &influxql.NowValuer{Now: c10Now, Location: loc}),
+					influxql.MultiValuer(influxql.MapValuer{"x": int64(1)}, influxql.MultiValuer(&influxql.NowValuer{Now: c10Now}), &influxql.NowValuer{Now: c10Now, Location: loc}),
+					influxql.MultiValuer(&influxql.NowValuer{Now: c10Now, Location: loc}, &influxql.NowValuer{Now: c10Now}),
 				}
-				_, ta, e1 := influxql.ConditionExpr(a, v)
-				_, tb, e2 := influxql.ConditionExpr(b, v)
-				_, tc, e3 := influxql.ConditionExpr(c, v)
-				rp := map[string]interface{}{"op": "condition_zone", "text": "time " + op + " '" + day + "'", "zone": loc.String()}
-				if e1 != nil || e2 != nil || e3 != nil {
-					o.fail("", fmt.Sprintf("time %s '%s' in zone %s: %v %v %v", op, day, loc, e1, e2, e3), rp)
-					continue
-				}
-				d, _ := time.ParseInLocation("2006-01-02", day, loc)
-				want := d
-				if !ta.Min.Equal(tb.Min) || !ta.Max.Equal(tb.Max) {
-					o.fail("", fmt.Sprintf("in zone %s, time %s '%s' gives [%v, %v] but its date-time spelling '%s 00:00:00' gives [%v, %v]", loc, op, day, ta.Min, ta.Max, day, tb.Min, tb.Max), rp)
-					continue
-				}
-				got := ta.Min
-				if op == "<" || op == "<=" {
-					got = ta.Max
-				}
-				switch op {
-				case ">":
-					want = want.Add(time.Nanosecond)
-				case "<":
-					want = want.Add(-time.Nanosecond)
-				}
-				if !got.Equal(want) {
-					o.fail("", fmt.Sprintf("in zone %s, time %s '%s' bounds at %v, expected %v (midnight of that day in the zone)", loc, op, day, got, want), rp)
-				}
-				// an explicit Z is UTC whatever the zone
-				dz, _ := time.Parse("2006-01-02", day)
-				gz := tc.Min
-				if op == "<" || op == "<=" {
-					gz = tc.Max
-				}
-				wz := dz
-				switch op {
-				case ">":
-					wz = wz.Add(time.Nanosecond)
-				case "<":
-					wz = wz.Add(-time.Nanosecond)
-				}
-				if !gz.Equal(wz) {
-					o.fail("", fmt.Sprintf("in zone %s, time %s '%sT00:00:00Z' bounds at %v, expected %v", loc, op, day, gz, wz), rp)
+				for _, v := range shapes {
+					a, erra := influxql.ParseExpr("time " + op + " '" + day + "'")
+					b, errb := influxql.ParseExpr("time " + op + " '" + day + " 00:00:00'")
+					c, errc := influxql.ParseExpr("time " + op + " '" + day + "T00:00:00Z'")
+					if erra != nil || errb != nil || errc != nil {
+						continue
+					}
+					_, ta, e1 := influxql.ConditionExpr(a, v)
+					_, tb, e2 := influxql.ConditionExpr(b, v)
+					_, tc, e3 := influxql.ConditionExpr(c, v)
+					rp := map[string]interface{}{"op": "condition_zone", "text": "time " + op + " '" + day + "'", "zone": loc.String()}
+					if e1 != nil || e2 != nil || e3 != nil {
+						o.fail("", fmt.Sprintf("time %s '%s' in zone %s: %v %v %v", op, day, loc, e1, e2, e3), rp)
+						continue
+					}
+					d, _ := time.ParseInLocation("2006-01-02", day, loc)
+					want := d
+					if !ta.Min.Equal(tb.Min) || !ta.Max.Equal(tb.Max) {
+						o.fail("", fmt.Sprintf("in zone %s, time %s '%s' gives [%v, %v] but its date-time spelling '%s 00:00:00' gives [%v, %v]", loc, op, day, ta.Min, ta.Max, day, tb.Min, tb.Max), rp)
+						continue
+					}
+					got := ta.Min
+					if op == "<" || op == "<=" {
+						got = ta.Max
+					}
+					switch op {
+					case ">":
+						want = want.Add(time.Nanosecond)
+					case "<":
+						want = want.Add(-time.Nanosecond)
+					}
+					if !got.Equal(want) {
+						o.fail("", fmt.Sprintf("in zone %s, time %s '%s' bounds at %v, expected %v (midnight of that day in the zone)", loc, op, day, got, want), rp)
+					}
+					// an explicit Z is UTC whatever the zone
+					dz, _ := time.Parse("2006-01-02", day)
+					gz := tc.Min
+					if op == "<" || op == "<=" {
+						gz = tc.Max
+					}
+					wz := dz
+					switch op {
+					case ">":
+						wz = wz.Add(time.Nanosecond)
+					case "<":
+						wz = wz.Add(-time.Nanosecond)
+					}
+					if !gz.Equal(wz) {
+						o.fail("", fmt.Sprintf("in zone %s, time %s '%sT00:00:00Z' bounds at %v, expected %v", loc, op, day, gz, wz), rp)
+					}
 				}
 			}
 		}
